@@ -403,7 +403,11 @@ def c15(tier):
         b = add("derive", "", "#[derive_ex(%s)] %s" % (", ".join(D2), item))
         plan.append(("coderived", d, b, (t, P)))
     # non-comparison traits: the impl of one trait under two different co-derived sets (items without helper attributes)
-    plain_items = ["struct X<T>(T, u8);", "struct X { a: u8, b: String }", "enum X<T> { A, #[default] B(T), C { x: u8 } }", "struct X;", "enum X { #[default] A, B }"]
+    plain_items = ["struct X<T>(T, u8);", "struct X { a: u8, b: String }", "enum X<T> { A, #[default] B(T), C { x: u8 } }", "struct X;", "enum X { #[default] A, B }",
+                   # unrelated attributes of the item (layout, exhaustiveness, lint levels, conditional attributes), lifetime- / const-only parameters
+                   "#[repr(packed)] struct X(u8, [u8; 2]);", "#[repr(C, packed)] struct X { a: u8, b: i8 }", "#[repr(C)] struct X<T> { a: T }", "#[repr(packed(2))] struct X<T>(T);",
+                   "#[non_exhaustive] #[repr(u8)] enum X { #[default] A = 1, B = 5 }", "#[must_use] #[cfg_attr(all(), allow(dead_code))] struct X<'a>(&'a u8, u16);",
+                   "struct X<const N: usize>([u8; N]);", "#[repr(transparent)] struct X(u32);", "#[allow(dead_code)] #[doc = \"d\"] enum X<'a, const N: usize> { #[default] A, B(&'a [u8; N]) }"]
     others = ["Clone", "Copy", "Debug", "Default", "PartialEq", "Hash"]
     for it in plain_items:
         for t in others:
